@@ -38,7 +38,30 @@ class Runner:
     def pids(self):
         m = {a.pid: name for name, a in self.agents.items()}
         m.update({w.pid: name for name, w in self.writers.items()})
+        m.update({p.pid: name for name, p in getattr(self, "foreign", {}).items()})
         return m
+
+    def foreign_lock(self, w):
+        """a process that is not SQLite takes a write lock on the shared byte range only (no PENDING byte)"""
+        import subprocess
+        code = ("import fcntl, os, sys\nfd = os.open(sys.argv[1], os.O_RDWR)\n"
+                "fcntl.lockf(fd, fcntl.LOCK_EX | fcntl.LOCK_NB, 510, 0x40000000 + 2, 0)\nprint('ok', flush=True)\nsys.stdin.readline()\n")
+        p = subprocess.Popen([common.PYTHON, "-c", code, self.db], stdin=subprocess.PIPE, stdout=subprocess.PIPE, stderr=subprocess.DEVNULL)
+        if p.stdout.readline().strip() != b"ok":
+            raise Infra("the foreign locker could not lock the shared range")
+        if not hasattr(self, "foreign"):
+            self.foreign = {}
+        self.foreign[w] = p
+        self.emit(w, "f_lock")
+
+    def foreign_unlock(self, w):
+        p = self.foreign.pop(w)
+        try:
+            p.stdin.close()
+            p.wait(timeout=10)
+        except Exception:
+            p.kill()
+        self.emit(w, "f_unlock")
 
     def table(self):
         t = procs.region_table(procs.proc_locks(self.db), self.pids())
@@ -165,6 +188,8 @@ class Runner:
                 pass
         for a in list(self.agents.values()) + list(self.writers.values()):
             a.close()
+        for p in list(getattr(self, "foreign", {}).values()):
+            p.kill()
 
 
 def validate(v, schedules, layout, tag, module="TraceLocks", cfg=None, fname="locks.ndjson", reset=None):
